@@ -694,7 +694,9 @@ def _job_kinds(a):
                          "replay": {"env": {"fw": env.get("fw"), "nvx": "1"}, "func": "props.c11:job", "arg": a}})
     evals = 0
     kinds = ["plain", "later", "coro"]
+    # det: False = no options, True = details_arg, "no" = SubscribeOptions(details=False) given explicitly
     variants = [(k, ct, det) for k in kinds for ct in (False, True) for det in (False, True)]
+    variants += [("plain", False, "no"), ("coro", False, "no")]
     for order in (variants, list(reversed(variants))):
         l1 = H.L1(observers=False).join()
         s = l1.session
@@ -703,7 +705,7 @@ def _job_kinds(a):
 
         def make(idx, kind, det):
             def record(a_, k_):
-                if det:
+                if det is True:
                     k_ = dict(k_)
                     d_ = k_.pop("details", None)
                     log.append((idx, tuple(a_), k_, d_ is not None))
@@ -723,7 +725,8 @@ def _job_kinds(a):
                     record(a_, k_)
             return h
         for idx, (kind, ct, det) in enumerate(order):
-            opts = T.SubscribeOptions(details_arg="details") if det else None
+            opts = T.SubscribeOptions(details_arg="details") if det is True else (
+                T.SubscribeOptions(details=False) if det == "no" else None)
             r = l1.api(s.subscribe, make(idx, kind, det), "com.kinds.topic", options=opts, check_types=ct)
             l1.settle()
             if r[0] == "raise":
@@ -745,7 +748,7 @@ def _job_kinds(a):
             evals += 1
             stats["handler_kinds_events"] += 1
             stats["nontrivial"] += 1
-            want = [(idx, tuple(a_), dict(kw), det) for idx, (kind, ct, det) in enumerate(order)]
+            want = [(idx, tuple(a_), dict(kw), det is True) for idx, (kind, ct, det) in enumerate(order)]
             got = [(i, tuple(x), {k: v for k, v in y.items()}, d) for i, x, y, d in log]
             if exc is not None:
                 bad("escape", "EVENT raised %s" % H.exc_brief(exc))
